@@ -544,6 +544,67 @@ pub fn leftover_subscriptions_part(v: &Verdicts, check: &str, strategy: &str) ->
     (cases, judged)
 }
 
+/// A mutation that stores the value the key already holds is a mutation like any other (round 11): the version moves, so
+/// the subscriber is told - one changed / changed-version pair per committed write, whatever the write is (plain,
+/// versioned, replicated, an increment by zero, the same value again after a remove) and on every conflict strategy.
+/// Returns (cases, writes judged).
+pub fn same_value_part(v: &Verdicts, check: &str) -> (u64, u64) {
+    let (node, _adm) = mem_node(&[("svnone", "none"), ("svnewer", "newer"), ("svarb", "arbiter")]);
+    let dbs = node.dbs.clone();
+    let (mut cases, mut judged) = (0u64, 0u64);
+    for db in ["svnone", "svnewer", "svarb"] {
+        let forms: Vec<(&str, Vec<String>)> = vec![
+            ("plain-set-twice", vec!["set {k} on".into(), "set {k} on".into(), "set {k} on".into()]),
+            ("versioned-set-of-the-held-value", vec!["set {k} on".into(), "set-safe {k} 900 on".into(), "set-safe {k} 1900 on".into()]),
+            ("replicated-set-of-the-held-value", vec!["set {k} on".into(), format!("replicate {} {{k}} -1 on", db), format!("replicate {} {{k}} 2900 on", db)]),
+            ("increment-by-zero", vec!["set {k} 7".into(), "increment {k} 0".into(), "increment {k} 0".into()]),
+            ("same-value-after-a-remove", vec!["set {k} on".into(), "remove {k}".into(), "set {k} on".into(), "set {k} on".into()]),
+            ("empty-value-twice", vec!["set {k} ".into(), "set {k} ".into()]),
+            ("number-set-again", vec!["set {k} 5".into(), "set {k} 5".into(), "increment {k} 0".into(), "set {k} 5".into()]),
+        ];
+        for (name, lines) in forms {
+            for who in ["token-session", "administrator-session"] {
+                cases += 1;
+                let key = format!("sv{}", cases);
+                let mut w = Session::new();
+                if who == "administrator-session" {
+                    w.call(&dbs, "auth admin pwd");
+                }
+                w.call(&dbs, &format!("use-db {} tok", db));
+                let mut sub = Session::new();
+                sub.call(&dbs, &format!("use-db {} tok", db));
+                sub.call(&dbs, &format!("watch {}", key));
+                sub.drain();
+                for (i, l) in lines.iter().enumerate() {
+                    let line = l.replace("{k}", &key);
+                    if line.starts_with("replicate ") && who != "administrator-session" {
+                        continue;
+                    }
+                    let r = w.call(&dbs, &line);
+                    let got = sub.drain();
+                    if r.is_error() {
+                        continue;
+                    }
+                    judged += 1;
+                    let n_changed = got.iter().filter(|m| m.starts_with(&format!("changed {} ", key)) || m.trim_end() == format!("changed {}", key)).count();
+                    let n_removed = got.iter().filter(|m| m.trim_end() == format!("removed {}", key)).count();
+                    let is_remove = line.starts_with("remove ");
+                    if (is_remove && n_removed != 1) || (!is_remove && n_changed != 1) {
+                        v.report(
+                            json!({"check": check, "problem": if n_changed + n_removed == 0 { "committed-change-not-notified" } else { "notified-more-than-once" }, "context": "write-of-the-value-the-key-already-holds", "form": name}),
+                            json!({"database_strategy": db, "writer": who, "write_number": i + 1, "line": line, "reply": r.resp, "subscriber_got": got, "all_lines": lines}),
+                        );
+                        break;
+                    }
+                }
+                w.disconnect(&dbs);
+                sub.disconnect(&dbs);
+            }
+        }
+    }
+    (cases, judged)
+}
+
 pub fn run(tier: &str) -> i32 {
     quiet_panics();
     let thorough = tier == "thorough";
@@ -643,6 +704,8 @@ pub fn run(tier: &str) -> i32 {
             }
         }
     }
+    let same_value = same_value_part(&v, "watch");
+    ev.set("writes_of_the_value_the_key_already_holds", json!({"cases": same_value.0, "writes_judged": same_value.1}));
     let leftover = leftover_subscriptions_part(&v, "watch", "none");
     ev.set("subscriptions_left_behind_by_departed_sessions", json!({"cases": leftover.0, "notifications_judged": leftover.1}));
     // free-running part: real threads, no scheduler. (a) several clients subscribe to one key at the same instant: each
